@@ -5,6 +5,7 @@ print("RandomAgent.get_action signature:", inspect.signature(RandomAgent.get_act
 try:
     RandomAgent.get_action(object.__new__(RandomAgent), {}, timestep=0)
 except TypeError as e: print("TypeError:", e)
+except AttributeError: print("signature accepted (uninitialised demo object has no action_manager)")
 # nmap uninstalled + port scan payload arriving on an open port
 net,c,s,link = two_hosts()
 s.software_manager.uninstall("nmap")
